@@ -18,7 +18,7 @@ MANIFEST_INFO = {
     "engine": "B",
     "design_ref": "DESIGN.md section 5, C18",
     "technique": "explicit-state BFS over add_rule/startTestRun/stopTestRun/status histories on a real StreamResultRouter with recording sinks, routing-precedence reference model per step; exhaustive enumeration of StreamToQueue/consuming-router nestings",
-    "level_text": "All histories of <= 6 (quick) / 8 (thorough) operations over 12 rule kinds with a new sink each and 12 that add a further rule (with or without do_start_stop_run) for the fallback or the most recent sink (<=3 unambiguous rules), run start/stop and 21 status events (7 route codes of 0..4 segments x 3 test ids) are executed on a fresh real router per fallback configuration; after every operation every sink's log is compared with the model (exactly one destination, fields unchanged, exactly one leading segment consumed, start/stop delivered once to registered sinks only). The push/pop inverse is enumerated for every nesting of 1..3 StreamToQueue codes over 4 original route codes.",
+    "level_text": "All histories of <= 6 (quick) / 8 (thorough) operations over 12 rule kinds with a new sink each a refused add_rule (two-segment prefix) and 12 that add a further rule (with or without do_start_stop_run) for the fallback or the most recent sink (<=3 unambiguous rules), run start/stop and 21 status events (7 route codes of 0..4 segments x 3 test ids) are executed on a fresh real router per fallback configuration; after every operation every sink's log is compared with the model (exactly one destination, fields unchanged, exactly one leading segment consumed, start/stop delivered once to registered sinks only). The push/pop inverse is enumerated for every nesting of 1..3 StreamToQueue codes over 4 original route codes.",
     "level_note": "Events are passed by keyword (as every caller in testtools does); ambiguous rule sets (two rules for one prefix or id) are documented as undefined and not generated.",
 }
 
@@ -62,9 +62,10 @@ class Model:
         self.in_run = False
         self.nrules = 0
         self.nsinks = 0
+        self.nbad = 0
 
     def key(self):
-        return (tuple(sorted(self.prefixes.items())), tuple(sorted(self.ids.items(), key=repr)), tuple(self.registered), self.in_run, self.nsinks)
+        return (tuple(sorted(self.prefixes.items())), tuple(sorted(self.ids.items(), key=repr)), tuple(self.registered), self.in_run, self.nsinks, self.nbad)
 
     def route(self, rc, tid):
         """-> (destination, delivered route code) or None when the event has no destination."""
@@ -91,9 +92,12 @@ class Impl:
         else:
             self.router = StreamResultRouter(self.fb, do_start_stop_run=(fallback == "fallback+startstop"))
         self.sinks = []
+        self.rejected = []  # sinks of add_rule calls that the router refused
 
     def logs(self):
         d = {i: s.log for i, s in enumerate(self.sinks)}
+        for i, s in enumerate(self.rejected):
+            d[("rejected", i)] = s.log
         if self.fb is not None:
             d["F"] = self.fb.log
         return d
@@ -129,6 +133,9 @@ class System:
                 if (op[2] == "F" and not m.fallback) or (op[2] == "last" and not m.nsinks):
                     continue
                 out.append(op)
+            if m.nbad < 1:
+                out.append(("rule_bad", True))
+                out.append(("rule_bad", False))
         out.extend(STATUS_OPS)
         return out
 
@@ -149,6 +156,15 @@ class System:
                     expected[s].append(("stopTestRun",))
                 m.in_run = False
                 impl.router.stopTestRun()
+            elif name == "rule_bad":
+                # a route prefix of two segments is refused (TypeError): the call must have no effect,
+                # now or at any later startTestRun/stopTestRun
+                sink = rec.Stream()
+                impl.rejected.append(sink)
+                expected[("rejected", len(impl.rejected) - 1)] = []
+                m.nbad += 1
+                must_raise = True
+                impl.router.add_rule(sink, "route_code_prefix", route_prefix="0/1", consume_route=True, do_start_stop_run=op[1])
             elif name in ("rule_prefix_same", "rule_id_same"):
                 idx = "F" if op[2] == "F" else m.nsinks - 1
                 sink = impl.fb if op[2] == "F" else impl.sinks[idx]
@@ -204,7 +220,10 @@ class System:
             raised = e
         if check:
             if must_raise and raised is None:
-                problems.append(("no-destination", "event with no matching rule and no fallback did not raise"))
+                if name == "rule_bad":
+                    problems.append(("bad-rule-accepted", "add_rule with a two-segment route prefix did not raise"))
+                else:
+                    problems.append(("no-destination", "event with no matching rule and no fallback did not raise"))
             if not must_raise and raised is not None:
                 problems.append(("call-raised", "%s raised %s: %s" % (name, type(raised).__name__, raised)))
             logs = impl.logs()
